@@ -144,17 +144,25 @@ def run(ck):
 
 
 def replay(r):
+    """re-executes the assignment with every oracle of the run: broadcast value, identity of atoms and lattice, the selection
+    sees it, the copy does not, other attributes unchanged"""
     import numpy
 
     common.use_repo()
     n, attr, form, vs, data = r["n"], r["attr"], r["form"], r.get("shape"), r["data"]
     item = ATTRS[attr]
-    s = build(n, attr in ("U", "U12"))
+    aniso = attr in ("U", "U12")
+    s = build(n, aniso)
     if form == "scalar":
         value = float(data) / 64.0
     else:
         arr = (numpy.array(data, dtype=float) / 64.0).reshape(vs)
         value = arr.tolist() if form == "list" else arr
+    ids = [id(a) for a in s]
+    lat = s.lattice
+    sel = s[:] if n else None
+    cp = s.copy() if n else None
+    before_other = {o: per_atom(s, o) for o in ("occupancy", "xyz") if o != attr and not (attr in ("x", "z", "xyz_cartn") and o == "xyz")}
     try:
         setattr(s, attr, value)
         got = ("ok", per_atom(s, attr))
@@ -173,4 +181,19 @@ def replay(r):
             want = ("ValueError", None)
     print("implementation:", got)
     print("broadcast     :", want)
-    return 0 if got == want else 1
+    bad = got != want
+    if [id(a) for a in s] != ids or s.lattice is not lat or any(a.lattice is not lat for a in s):
+        print("the atom sequence or a lattice reference changed")
+        bad = True
+    if got[0] == "ok" and n:
+        if per_atom(sel, attr) != got[1]:
+            print("a selection sharing the atoms does not see the assignment")
+            bad = True
+        if per_atom(cp, attr) == got[1] and any(v != per_atom(build(n, aniso), attr)[0] for v in got[1]):
+            print("a copy made before the assignment changed with the original")
+            bad = True
+        for o, bo in before_other.items():
+            if per_atom(s, o) != bo:
+                print("the attribute %s changed" % o)
+                bad = True
+    return 1 if bad else 0
